@@ -173,7 +173,10 @@ theorem genOK_compile (isFn : Nat → Bool) : ∀ (e : Expr) (c : Ctx), GenOK (c
     gen_auto [genOK_compileAll isFn es _]
   | .call f args, c => by
     cases f <;> (unfold compile; gen_auto [genOK_compileCallArgs isFn args _ _ _])
-  | .begin_ es, c => by unfold compile; exact genOK_compileBegin isFn es c
+  | .begin_ es, c => by
+    cases es with
+    | nil => unfold compile; exact genOK_pure _
+    | cons e es => unfold compile; exact genOK_compileBegin isFn (e :: es) c
   | .def_ x e, c => by unfold compile; gen_auto [genOK_compile isFn e _]
   | .set_ x e, c => by unfold compile; gen_auto [genOK_compile isFn e _]
   | .cond arms d, c => by unfold compile; gen_auto [genOK_compile isFn d _, genOK_compileArms isFn arms _]
